@@ -59,4 +59,9 @@ def subchecks(tier):
                             n={"quick": 4800, "thorough": 30000}, abort_is_violation="C14",
                             rule="one Simulation continued by 2-4 calls of simulate_until_max_time and simulate_until_max_customers in any order (increasing horizons, "
                                  "increasing absolute counts, all four counting methods); same horizon / count monitor per call")
-    return [base, region, exact_dec, feed, mixed, fuzz_subcheck(base, tier)]
+    combo = system_subcheck("preempt_combo", common.combo_profile("C14", more_weights={"zero_servers": 0.2}, plans=("max_time", "max_customers")),
+                            lambda spec: [Horizon()], lambda a, spec, res: a.get("ev_class_change", 0) + a.get("rec_interrupted_service", 0) >= 2 and a.get("ev_shift_change", 0) >= 2,
+                            classes=classes, n={"quick": 3000, "thorough": 20000}, abort_is_violation="C14",
+                            rule="schedules with zero-server shifts x pre-emptive priorities x timed class changes x reneging at the same nodes: every event owed to a waiting "
+                                 "customer stays scheduled through shifts without servers")
+    return [base, region, exact_dec, feed, mixed, combo, fuzz_subcheck(base, tier)]
